@@ -51,7 +51,7 @@ RULE = (
     "choice of the tape). Additionally schedules of small histories are enumerated depth-first with sleep-set "
     "reduction (an operation and a plain-code block of different threads commute): all schedules with any number "
     "of preemptions before operations and at most b preemptions taken immediately after an operation. Quick: 9 fixed "
-    "histories (b=1, <=1500 schedules each) plus 16 Hypothesis-drawn histories with two flush deadlines (b=1, <=500 "
+    "histories (b=1, <=3000 schedules each) plus 16 Hypothesis-drawn histories with two flush deadlines (b=1, <=1000 "
     "each). Thorough: the fixed histories with b=1 and b=2, every history of <=4 updates with <=2 flush deadlines "
     "(with and without one pause/resume pair) with b=0 over a raw+json+quicklogger collection, continuous and "
     "subdivided, every such history of <=3 updates (continuous) / <=2 updates (subdivided) with b=1, <=6000 "
@@ -748,7 +748,7 @@ def run(ctx: RunContext) -> int:
     n = ctx.scale(300, 8000)
     max_len = 14 if ctx.quick else 24
     max_tape = 96 if ctx.quick else 192
-    limit = 1500 if ctx.quick else 6000
+    limit = 3000 if ctx.quick else 6000
     # (data sets, history, cap on #schedules, bound on preemptions taken at after-points)
     work = [(d, h, limit, 1) for d, h in FIXED_DFS]
     if not ctx.quick:
@@ -762,7 +762,7 @@ def run(ctx: RunContext) -> int:
         work.sort(key=lambda w: -(len(w[1]) * (1 + 8 * w[3])))  # expensive trees first, so the shards end together
     slices = [work[i::16] for i in range(16)]
     n_dfs = ctx.scale(1, 4)
-    res = run_shards(shard, [(derive_seed(ctx.seed, i), n, max_len, max_tape, slices[i], n_dfs, 500 if ctx.quick else 3000)
+    res = run_shards(shard, [(derive_seed(ctx.seed, i), n, max_len, max_tape, slices[i], n_dfs, 1000 if ctx.quick else 3000)
                              for i in range(16)])
     if res.counters.get("dfs-histories-truncated"):
         res.notes.append(f"some schedule trees were cut at their cap ({limit} schedules): the exhaustive sub-domain is the "
